@@ -21,6 +21,9 @@ import traceback
 from vlib import common, findings
 
 PY = '/venv/bin/python'
+# evidence/ and replays/ live in /verif; VERIF_OUT redirects them when the
+# checks are pointed at a scratch tree (seeded-change experiments)
+OUT_BASE = os.environ.get('VERIF_OUT') or common.VERIF
 
 
 def parse_args(argv):
@@ -192,7 +195,7 @@ def main(argv=None):
 
     replay_paths = []
     if agg['violations']:
-        rdir = os.path.join(common.VERIF, 'replays', prop)
+        rdir = os.path.join(OUT_BASE, 'replays', prop)
         os.makedirs(rdir, exist_ok=True)
         for v in agg['violations'][:20]:
             path = os.path.join(rdir, common.h64(json.dumps(
@@ -233,8 +236,8 @@ def main(argv=None):
         'wall_s': round(wall, 2),
         'violations': agg['violation_total'],
     }
-    os.makedirs(os.path.join(common.VERIF, 'evidence'), exist_ok=True)
-    common.write_json(os.path.join(common.VERIF, 'evidence', prop + '.json'),
+    os.makedirs(os.path.join(OUT_BASE, 'evidence'), exist_ok=True)
+    common.write_json(os.path.join(OUT_BASE, 'evidence', prop + '.json'),
                       evidence)
 
     # --- output ---------------------------------------------------------
